@@ -130,7 +130,7 @@ def gammaPowers (r γ n : Nat) : List Nat := powers r γ (1 % r) n
 /-- `FoldProof` : (folded H, folded claimed value, folded digest) -/
 def foldProof (r γ : Nat) (digests : List Nat) (H : Nat) (vals : List Nat) : Except Err (Nat × Nat × Nat) :=
   if digests.length ≠ vals.length then .error .nbDigests
-  else if digests.length = 0 then .error .panic      -- `gammai[0].SetOne()` on an empty slice
+  else if digests.length = 0 then .error .zeroDigests   -- ErrZeroNbDigests (since fix a88cea6; `gammai[0].SetOne()` used to index an empty slice)
   else
     let (fd, fe) := fold r digests vals (gammaPowers r γ digests.length)
     .ok (H % r, fe, fd)
